@@ -488,3 +488,32 @@ def shrink_list(items, still_fails, max_rounds=200):
                 break
             n = min(len(cur), n * 2)
     return cur
+
+
+def corpus_cases(pid):
+    cases = []
+    d = os.path.join(ROOT, "corpus", pid)
+    if os.path.isdir(d):
+        for f in sorted(os.listdir(d)):
+            cases += [l.strip() for l in open(os.path.join(d, f)) if l.strip() and not l.startswith("#")]
+    return cases
+
+
+def parse_graph_tokens(tokens, pos=0):
+    """tokens: n m (u v w)*m starting at pos; returns (n, edges, next_pos)"""
+    n, m = int(tokens[pos]), int(tokens[pos + 1]); pos += 2
+    es = []
+    for _ in range(m):
+        es.append((int(tokens[pos]), int(tokens[pos + 1]), int(tokens[pos + 2]))); pos += 3
+    return n, es, pos
+
+
+def fields(line, keys):
+    """split 'K 2 CSD 2 IDX 0 1 REV ..' into {key: [tokens]}"""
+    out, cur = {}, None
+    for tok in line.split():
+        if tok in keys:
+            cur = tok; out[cur] = []
+        elif cur is not None:
+            out[cur].append(tok)
+    return out
